@@ -42,6 +42,7 @@ def takes : Ev → Sig
 /-- the signature-based dispatch flags of core.py tell the truth about this tree -/
 def DispatchFaithful (e : Ev) : Bool :=
   acceptsSeats e == (takes e).seats && acceptsPrevGains e == (takes e).prev
+    && acceptsMaxSeats e == (takes e).max
 
 def takesAll (e : Ev) : Bool := (takes e).seats && (takes e).prev && (takes e).max
 
@@ -136,16 +137,17 @@ def assemble (rs : List (Key × Option V)) (kind : V) : V :=
               | some _ => Option.none))
 
 /-- per-constituency evaluation equals evaluating each constituency separately with its apportioned
-    seats; constituencies without seats get the empty result of the kind of the evaluated ones -/
+    seats; a constituency the apportionment does not mention has no seats; constituencies without seats
+    get the empty result of the kind of the evaluated ones (an empty distribution when none is) -/
 def byConstituencyLaw (part : Sem) (app : App Sem) (pre : Option Sem) : Sem := fun a => do
   let n := a.n.getD .none
   let seats ← apportionLaw app a.votes n
   let allowed ← allowedLaw pre a.votes n
   let kvs ← a.votes.items
-  let rs ← districtsLaw part allowed seats (a.prev.getD (.dict [])) (a.max.getD (.dict [])) .none kvs
-  match rs.findSome? (·.2) with
-  | Option.none => throw eStop
-  | some first => pure (assemble rs (emptyLike first))
+  let rs ← districtsLaw part allowed seats (a.prev.getD (.dict [])) (a.max.getD (.dict [])) (.num 0) kvs
+  pure (assemble rs (match rs.findSome? (·.2) with
+    | some first => emptyLike first
+    | Option.none => .dict []))
 
 /-- pre-apportionment equals apportioning, then evaluating with the table of seats -/
 def preApportionedLaw (part : Sem) (app : App Sem) : Sem := fun a => do
@@ -215,8 +217,7 @@ def unusedVotesLaw (stages : List Sem) (quotas : List QuotaFn) (depth : Nat) : S
   let n ← match a.n with
     | some n => pure n
     | Option.none => throw eType
-  let prev := a.prev.getD (.dict [])
-  let acc ← do let d ← prev.items; pure (V.dict d)
+  let acc ← copyNested depth (a.prev.getD (.dict []))
   if (a.max.getD (.dict [])).truthy then throw .notImplemented
   chainUnused depth (zipQuotas stages (quotas.map some ++ [Option.none])) a.votes n acc
 
@@ -397,8 +398,11 @@ def denoteList : List Ev → List Sem
   | e :: es => denote e :: denoteList es
 end
 
-/-! ## static well-formedness of a tree: every part can take what its wrapper hands it, and wherever
-    core.py consults `accepts_seats` / `accepts_prev_gains` the answer is the truth -/
+/-! ## static well-formedness of a tree: every part can take what its wrapper hands it UNCONDITIONALLY
+    (a tiebreaker and a district evaluator are handed a seat count, the stages of a multi-stage distributor
+    seats, previous gains and caps, …).  Nothing about the dispatch flags is assumed any more: since
+    e582ee8 they are the truth for every tree (`acceptsSeats_faithful`, `acceptsPrevGains_faithful`,
+    `acceptsMaxSeats_faithful` in Props/C14.lean). -/
 
 def appOK (okE : Ev → Bool) : App Ev → Bool
   | .ev ap => okE ap && (takes ap).seats
@@ -409,23 +413,22 @@ def WellFormed : Ev → Bool
   | .leaf _ _ => true
   | .fixedSeatCount e _ => WellFormed e && (takes e).seats
   | .tieBreaking main tb => WellFormed main && WellFormed tb && (takes tb).seats
-  | .conditioned elim e _ =>
-      WellFormed elim && WellFormed e && (acceptsPrevGains elim == (takes elim).prev) && DispatchFaithful e
+  | .conditioned elim e _ => WellFormed elim && WellFormed e
   | .preConverted _ e => WellFormed e
   | .postConverted e _ => WellFormed e
   | .votingSystem e => WellFormed e
   | .byConstituency e app pre =>
-      WellFormed e && (takes e).seats && (acceptsPrevGains e == (takes e).prev) && ((takes e).prev == (takes e).max)
+      WellFormed e && (takes e).seats
       && (match app with | .ev ap => WellFormed ap && (takes ap).seats | _ => true)
-      && (match pre with | some p => WellFormed p && (acceptsSeats p == (takes p).seats) | Option.none => true)
+      && (match pre with | some p => WellFormed p | Option.none => true)
   | .preApportioned e app =>
       WellFormed e && takesAll e && (match app with | .ev ap => WellFormed ap && (takes ap).seats | _ => true)
   | .removedApportionment e => WellFormed e && takesAll e
   | .byParty overall alloc =>
-      WellFormed overall && (takes overall).seats
+      WellFormed overall
       && (match alloc with
-          | some al => WellFormed al && takesAll al && (acceptsPrevGains al == (takes al).prev)
-          | Option.none => takesAll overall && (acceptsPrevGains overall == (takes overall).prev))
+          | some al => WellFormed al && takesAll al
+          | Option.none => takesAll overall)
   | .multistage rounds _ => WellFormedList rounds true
   | .unusedVotes rounds _ _ => WellFormedList rounds false
   | .partyList party _ _ => WellFormed party && (takes party).seats
@@ -445,29 +448,5 @@ def conditionedIdeal (elim part : Sem) (depth : Nat) : Sem := fun a => do
   let passed ← elim { votes := totals, prev := some prevTotals }
   let restricted ← elimParty depth a.votes passed
   part { a with votes := restricted, prev := some prev }
-
-/-- a constituency the apportionment does not mention has no seats; constituencies without seats have
-    an empty result, also when no constituency at all is evaluated (then of the kind `dflt`) -/
-def byConstituencyIdeal (dflt : V) (part : Sem) (app : App Sem) (pre : Option Sem) : Sem := fun a => do
-  let n := a.n.getD .none
-  let seats ← apportionLaw app a.votes n
-  let allowed ← allowedLaw pre a.votes n
-  let kvs ← a.votes.items
-  let rs ← districtsLaw part allowed seats (a.prev.getD (.dict [])) (a.max.getD (.dict [])) (.num 0) kvs
-  pure (assemble rs (match rs.findSome? (·.2) with
-    | some first => emptyLike first
-    | Option.none => dflt))
-
-/-- every constituency of the votes is mentioned by the apportionment -/
-def covered (seats votes : V) : Bool :=
-  match seats, votes with
-  | .dict sd, .dict kvs => kvs.all (fun p => D.has sd p.1)
-  | _, _ => true
-
-/-- … for the apportionment of this call (decidable by evaluation) -/
-def apportionmentCovers (app : App Sem) (a : Args) : Bool :=
-  match apportionLaw app a.votes (a.n.getD .none) with
-  | .ok seats => covered seats a.votes
-  | .error _ => true
 
 end VL.C14
